@@ -146,3 +146,40 @@ def ball_iter(base, alphabet, shard):
                     nxt.append(u)
                     yield u
         frontier = nxt
+
+
+def implementation_identifiers():
+    """Words the implementation uses for itself, harvested from the tree under check at run time: every attribute name of
+    every bibtexparser module and class (and the names with their leading underscores and their `_handle_` /
+    `transform_` / `_is_` ... prefixes taken off), lower-cased as well, plus Python's own reserved attribute words.  A user
+    may spell an entry type, a key, a field key or a string name like any of them: 'one input per shortcut one can see in
+    the code' (dispatch by name, getattr / setattr / __dict__ / format(**fields) / keyword arguments built from text)."""
+    import importlib
+    import inspect
+    import pkgutil
+
+    import bibtexparser
+
+    names = set()
+    mods = [bibtexparser]
+    for info in pkgutil.walk_packages(bibtexparser.__path__, "bibtexparser."):
+        try:
+            mods.append(importlib.import_module(info.name))
+        except Exception:
+            pass
+    for mod in mods:
+        for name, obj in vars(mod).items():
+            names.add(name)
+            if inspect.isclass(obj) and getattr(obj, "__module__", "").startswith("bibtexparser"):
+                for klass in obj.__mro__:
+                    names.update(vars(klass).keys())
+    out = set()
+    for n in names:
+        stripped = n.strip("_")
+        out.update((n, stripped, stripped.lower()))
+        for sep in ("handle_", "transform_", "is_", "get_", "set_", "move_to_", "parse_", "split_", "add_", "cast_to_"):
+            if stripped.startswith(sep):
+                out.add(stripped[len(sep):])
+        out.update(stripped.split("_"))
+    out.update(["self", "cls", "None", "True", "False", "class", "dict", "key", "value", "fields", "raw", "error", "type", "id", "ID", "ENTRYTYPE", "__class__", "__dict__", "__init__", "__eq__", "__hash__", "__deepcopy__", "__slots__"])
+    return sorted(w for w in out if w and re.fullmatch(r"\w+", w))
